@@ -148,6 +148,7 @@ func (fr *Frame) applyContract(st *State, call ssa.CallInstruction, fn *ssa.Func
 		rs := vc.sortOf(sig.Results().At(i).Type())
 		r := vc.sc.Fresh(fr.prefix+"r_"+shortName(ct.Key), rs)
 		vc.older(st, r, rs)
+		vc.structResult(st, r, sig.Results().At(i).Type())
 		res = append(res, r)
 	}
 	env := vc.callEnv(fn, sig, ct, args, st, old, "ensures of "+ct.Key)
@@ -230,6 +231,7 @@ func (fr *Frame) applyIfaceContract(st *State, call ssa.CallInstruction, m *type
 		rs := vc.sortOf(sig.Results().At(i).Type())
 		r := vc.sc.Fresh(fr.prefix+"r_"+m.Name(), rs)
 		vc.older(st, r, rs)
+		vc.structResult(st, r, sig.Results().At(i).Type())
 		res = append(res, r)
 	}
 	env := vc.callEnv(nil, sig, ct, all, st, old, "ensures of "+ct.Key)
@@ -385,9 +387,26 @@ func (fr *Frame) havocLoc(st *State, env *Env, loc *Expr, pos token.Pos) {
 	vc.locKeys(t, keys)
 	var leaves []leafLoc
 	vc.leafLocs(t, func(e Term) Term { return e }, &leaves)
+	// one havoc per memory key (several leaves of a struct-valued location may share a key)
+	byKey := map[string][]Term{}
+	sorts := map[string]string{}
+	var order []string
 	for _, lf := range leaves {
-		a := lf.addr(addr)
-		vc.havoc(st, lf.key, "(Array Ref "+lf.sort+")", func(x Term) Term { return Eq(x, a) })
+		if _, ok := byKey[lf.key]; !ok {
+			order = append(order, lf.key)
+		}
+		byKey[lf.key] = append(byKey[lf.key], lf.addr(addr))
+		sorts[lf.key] = lf.sort
+	}
+	for _, k := range order {
+		as := byKey[k]
+		vc.havoc(st, k, "(Array Ref "+sorts[k]+")", func(x Term) Term {
+			var ds []Term
+			for _, a := range as {
+				ds = append(ds, Eq(x, a))
+			}
+			return Or(ds...)
+		})
 	}
 }
 
